@@ -11,11 +11,7 @@ _RR = {}
 
 
 def read_ranges(prog):
-    rr = _RR.get(id(prog))
-    if rr is None:
-        rr = ReadRanges(prog.callgraph())
-        _RR[id(prog)] = rr
-    return rr
+    return prog.callgraph().ranges()
 
 
 def ptr_parts(t):
